@@ -2,10 +2,13 @@ package props
 
 import (
 	"context"
+	"crypto/tls"
 	"fmt"
 	"strings"
 	"testing"
 	"time"
+
+	"github.com/wneessen/go-mail/smtp"
 
 	"verif/sim/refsmtpd"
 	"verif/sim/sim"
@@ -28,6 +31,9 @@ type C15Scenario struct {
 	TLSVer string   `json:"tlsVer,omitempty"`
 	Script []string `json:"script"`
 	Sched  uint64   `json:"sched"`
+	// Via: "" = mail.Client.DialWithContext; "smtp" = smtp.Client.Auth called directly (the
+	// outcome is what Auth returns, with nothing of the mail package after it)
+	Via string `json:"via,omitempty"`
 }
 
 type c15 struct{}
@@ -40,9 +46,10 @@ func (*c15) Decode(raw []byte) (any, error) { return decodeInto[C15Scenario](raw
 
 var c15Alphabet = []string{"first-ok", "first-foreign", "first-trunc", "first-malformed", "first-iter0", "final-ok", "final-prev", "final-other", "final-empty", "final-zerokey", "final-blank", "empty", "junk", "235", "535"}
 
-type c15Variant struct{ mech, tls string }
+type c15Variant struct{ mech, tls, via string }
 
-var c15Variants = []c15Variant{{"SCRAM-SHA-256", ""}, {"SCRAM-SHA-1", ""}, {"SCRAM-SHA-256-PLUS", "1.3"}, {"SCRAM-SHA-1-PLUS", "1.2"}, {"SCRAM-SHA-256-PLUS", "1.2"}, {"SCRAM-SHA-1-PLUS", "1.3"}}
+var c15Variants = []c15Variant{{"SCRAM-SHA-256", "", ""}, {"SCRAM-SHA-1", "", "smtp"}, {"SCRAM-SHA-256-PLUS", "1.3", "smtp"}, {"SCRAM-SHA-1-PLUS", "1.2", ""},
+	{"SCRAM-SHA-256", "", "smtp"}, {"SCRAM-SHA-1", "", ""}, {"SCRAM-SHA-256-PLUS", "1.2", ""}, {"SCRAM-SHA-1-PLUS", "1.3", "smtp"}, {"SCRAM-SHA-256-PLUS", "1.3", ""}, {"SCRAM-SHA-1-PLUS", "1.2", "smtp"}}
 
 func c15Count(depth int) int {
 	n, p := 0, 1
@@ -72,7 +79,7 @@ func c15Unrank(i, depth int) []string {
 
 func (p *c15) Gen(seed uint64, i int, tier string) (any, bool) {
 	depth := 4
-	variants := c15Variants[:4]
+	variants := c15Variants[:5]
 	if tier == "thorough" {
 		depth = 5
 		variants = c15Variants
@@ -83,11 +90,11 @@ func (p *c15) Gen(seed uint64, i int, tier string) (any, bool) {
 		return nil, false
 	}
 	// sequences that continue after a final reply (235/535) are the same path as their prefix
-	sc := &C15Scenario{Mech: variants[v].mech, TLSVer: variants[v].tls, Script: c15Unrank(i%per, depth), Sched: sim.Derive(seed, 15, uint64(i))}
+	sc := &C15Scenario{Mech: variants[v].mech, TLSVer: variants[v].tls, Via: variants[v].via, Script: c15Unrank(i%per, depth), Sched: sim.Derive(seed, 15, uint64(i))}
 	for k, s := range sc.Script[:len(sc.Script)-1] {
 		if s == "235" || s == "535" {
 			_ = k
-			return &C15Scenario{Mech: sc.Mech, TLSVer: sc.TLSVer, Script: nil, Sched: sc.Sched}, true
+			return &C15Scenario{Mech: sc.Mech, TLSVer: sc.TLSVer, Via: sc.Via, Script: nil, Sched: sc.Sched}, true
 		}
 	}
 	return sc, true
@@ -114,6 +121,45 @@ func (p *c15) Exec(t *testing.T, scAny any) Outcome {
 	res := RunSim(t, sc.Sched, sim.Policy{Kind: "random"}, 0, time.Hour, func(k *sim.Kernel) (func(), func()) {
 		env = &NetEnv{K: k, Srv: refsmtpd.New(k, srv, TLSMat), Host: cfg.host()}
 		return func() {
+			if sc.Via == "smtp" {
+				conn, _ := env.Dial(context.Background(), "tcp", "mx.sim.example:25")
+				sc2, err := smtp.NewClient(conn, cfg.host())
+				if err != nil {
+					out.Infra = "greeting: " + err.Error()
+					return
+				}
+				if err := sc2.Hello("client.sim.example"); err != nil {
+					out.Infra = "hello: " + err.Error()
+					return
+				}
+				var st *tls.ConnectionState
+				if plus {
+					if err := sc2.StartTLS(&tls.Config{ServerName: cfg.host(), RootCAs: TLSMat.Pool, MinVersion: tls.VersionTLS12}); err != nil {
+						out.Infra = "starttls: " + err.Error()
+						return
+					}
+					s, ok := sc2.TLSConnectionState()
+					if !ok {
+						out.Infra = "no TLS state after StartTLS"
+						return
+					}
+					st = &s
+				}
+				var a smtp.Auth
+				switch sc.Mech {
+				case "SCRAM-SHA-1":
+					a = smtp.ScramSHA1Auth(cfg.User, cfg.Pass)
+				case "SCRAM-SHA-256":
+					a = smtp.ScramSHA256Auth(cfg.User, cfg.Pass)
+				case "SCRAM-SHA-1-PLUS":
+					a = smtp.ScramSHA1PlusAuth(cfg.User, cfg.Pass, st)
+				default:
+					a = smtp.ScramSHA256PlusAuth(cfg.User, cfg.Pass, st)
+				}
+				call = env.Call("smtp.Client.Auth", func() error { return sc2.Auth(a) })
+				_ = sc2.Close()
+				return
+			}
 			c, err := BuildClient(cfg, env.Dial, nil)
 			if err != nil {
 				out.Infra = err.Error()
@@ -201,7 +247,7 @@ func (p *c15) Exec(t *testing.T, scAny any) Outcome {
 	for _, s := range tr {
 		out.stat("fault.fired.server_message_"+s.Sym, 1)
 	}
-	out.Key = sc.Mech + "/" + sc.TLSVer + "|" + path + "|" + fmt.Sprint(success)
+	out.Key = sc.Mech + "/" + sc.TLSVer + "/" + sc.Via + "|" + path + "|" + fmt.Sprint(success)
 	out.Nontrivial = len(tr) > 0
 	return out
 }
@@ -260,7 +306,7 @@ func (p *c15) Shrink(scAny any) []any {
 
 func (p *c15) Info() PropInfo {
 	return PropInfo{
-		Rule: "enumeration: all sequences of length 1..4 (thorough: 1..5) over the 15-symbol server alphabet {first-ok, first-foreign, first-trunc, first-malformed, first-iter0 (iteration count 0), final-zerokey (computed with an all-zero salted password), final-blank (\"v=\"), final-ok, final-prev (valid for the previous, abandoned exchange), final-other, final-empty, empty, junk, 235, 535} for SCRAM-SHA-256, SCRAM-SHA-1, SCRAM-SHA-256-PLUS over TLS 1.3, SCRAM-SHA-1-PLUS over TLS 1.2 (thorough: both PLUS variants over both TLS versions); sequences that continue after 235/535 are counted as duplicates of their prefix; non-trivial = an AUTH exchange took place; distinct = distinct (mechanism, TLS version, sequence of messages actually played, outcome)",
+		Rule: "enumeration: all sequences of length 1..4 (thorough: 1..5) over the 15-symbol server alphabet {first-ok, first-foreign, first-trunc, first-malformed, first-iter0 (iteration count 0), final-zerokey (computed with an all-zero salted password), final-blank (\"v=\"), final-ok, final-prev (valid for the previous, abandoned exchange), final-other, final-empty, empty, junk, 235, 535} for SCRAM-SHA-256, SCRAM-SHA-1, SCRAM-SHA-256-PLUS over TLS 1.3, SCRAM-SHA-1-PLUS over TLS 1.2 (thorough: both PLUS variants over both TLS versions), half of the variants through mail.Client.DialWithContext and half through smtp.Client.Auth called directly; sequences that continue after 235/535 are counted as duplicates of their prefix; non-trivial = an AUTH exchange took place; distinct = distinct (mechanism, TLS version, sequence of messages actually played, outcome)",
 		Assumptions: []string{"the adversary's 'valid' messages are computed by the reference SCRAM implementation (validated on the RFC 5802/7677 vectors at start-up) from the real password; all other messages are computable without it",
 			"server-final messages are delivered as 334 challenges followed by 235, as SMTP servers do (RFC 4954 has no data in the 235 reply)"},
 		Real:        []string{"go-mail smtp.Client.Auth, scramAuth (all four variants), Client.DialWithContext, channel-binding derivation", "crypto/tls on both ends for the PLUS variants"},
